@@ -1632,7 +1632,25 @@ static void do_source_file(const char *filename_in,
 
    if (did_open)
    {
-      fclose(pfout);
+      // a failed or short write must not be installed over the target
+      bool write_failed = (ferror(pfout) != 0);
+
+      if (fclose(pfout) != 0)
+      {
+         write_failed = true;
+      }
+
+      if (write_failed)
+      {
+         LOG_FMT(LERR, "%s: Failed to write %s: %s (%d)\n",
+                 __func__, filename_tmp.c_str(), strerror(errno), errno);
+
+         if (filename_tmp != filename_out)
+         {
+            UNUSED(unlink(filename_tmp.c_str()));
+         }
+         exit(EX_IOERR);
+      }
 
       if (filename_tmp != filename_out)
       {
